@@ -538,7 +538,7 @@ theorem step_advance (h : Rel seen y m) (d : Nat) (hint : Option Who) : StepOk s
   have hlis : RelListen fd.1 y1.slots m.slots := by
     have := h.lis.congr (slots' := y1.slots) (ms' := m.slots) (fun i => (hT i).1) (fun i => (hT i).2.1) (fun i => (hT i).2.2.1)
       (fun i u hx => by rw [(hT i).2.2.2.2.2.1, (hT i).2.2.2.2.2.2.1]; exact hx) (fun i => (hT i).2.2.2.2.1)
-      (fun _ => rfl) (fun _ => rfl) (fun _ => rfl)
+      (fun _ => rfl) (fun _ => rfl) (fun _ hx => hx)
     exact ⟨by rw [hall.listens, hall.acked]; exact this.all_acked,
       by rw [hall.listens]; exact this.listens, by rw [hall.rlive]; exact this.luris,
       by rw [hall.listens]; exact this.sub_live, by rw [hall.listens]; exact this.gated_none, this.idle⟩
